@@ -252,81 +252,9 @@ pub fn register(t: &mut Table) {
         c11_curve1, c11_curve2, c11_curve3, c11_curve2_plateau, c11_curve3_plateau,
         c11_propagated_curve, c11_propagated_never, c11_extrapolating_curve,
         c11_arrival_curve_prefix_b, c11_arrival_curve_prefix_after_zero, c11_sum_of,
-        c11_slice_steps, c11_aggregate_steps,
     );
 }
 
-// ---- demand::Slice / Aggregate steps_iter: k-merge (model) + dedup of the components' steps.
-// Tiny bound: 2 components with 2-step SymCurves, first 3 items, unwind 5 (phantom recursion
-// through Box<dyn Iterator>, DESIGN.md 2.1 item 6, limits what is feasible).
-fn merged_steps_body(s: &mut Src, use_aggregate: bool) {
-    use crate::models::curve::SymCurve;
-    use response_time_analysis::demand::{Aggregate, Slice};
-    let a = SymCurve::any(s, 2, 3);
-    let b = SymCurve::any(s, 2, 3);
-    let comps = [
-        RBF::new(a, Scalar::new(Service::from(1))),
-        RBF::new(b, Scalar::new(Service::from(1))),
-    ];
-    // expected: sorted union of the distinct positions
-    let mut all = [a.s[0], a.s[1], b.s[0], b.s[1]];
-    // tiny selection sort (index-free enough: 4 concrete positions)
-    let mut i = 0;
-    while i < 4 {
-        let mut j = i + 1;
-        while j < 4 {
-            if all[j] < all[i] {
-                let t = all[i];
-                all[i] = all[j];
-                all[j] = t;
-            }
-            j += 1;
-        }
-        i += 1;
-    }
-    let mut want = [u64::MAX; 4];
-    let mut n = 0usize;
-    let mut i = 0;
-    while i < 4 {
-        if i == 0 || all[i] != all[i - 1] {
-            let mut k = 0;
-            while k < 4 {
-                if k == n {
-                    want[k] = all[i];
-                }
-                k += 1;
-            }
-            n += 1;
-        }
-        i += 1;
-    }
-    let mut got = [u64::MAX; 4];
-    if use_aggregate {
-        let mut v = Vec::with_capacity(4);
-        v.push(comps[0].clone());
-        v.push(comps[1].clone());
-        let agg = Aggregate::new(v);
-        let mut it = agg.steps_iter();
-        let mut k = 0;
-        while k < 3 {
-            if let Some(x) = it.next() {
-                got[k] = u64::from(x);
-            }
-            k += 1;
-        }
-    } else {
-        let sl = Slice::of(&comps[..]);
-        let mut it = sl.steps_iter();
-        let mut k = 0;
-        while k < 3 {
-            if let Some(x) = it.next() {
-                got[k] = u64::from(x);
-            }
-            k += 1;
-        }
-    }
-    assert!(got[0] == want[0] && got[1] == want[1] && got[2] == want[2]);
-    cover!(n >= 3 && want[1] != u64::MAX && b.s[1] < a.s[1], "3+ distinct steps, interleaved");
-}
-harness!(c11_slice_steps, 5, |s| { merged_steps_body(s, false); });
-harness!(c11_aggregate_steps, 5, |s| { merged_steps_body(s, true); });
+// demand::Slice / Aggregate steps_iter (k-merge + dedup of boxed step iterators): a harness with 2
+// components of 2-step curves, first 3 items, unwind 5 produced no verdict within 50 minutes
+// (phantom recursion through Box<dyn Iterator>, DESIGN.md 2.1 item 6) - outside the claim.
